@@ -83,6 +83,10 @@ type taintPass struct {
 	implCache  map[*types.Named]bool
 }
 
+// namedSinks only gives today's in-place helpers a readable sink label; it is not
+// what makes them sinks. Every own function that writes through a parameter gets
+// a derived summary (sinkParams) and is a sink under any name: renaming or
+// moving one of these changes the label in `sites`/`writers`, nothing else.
 var namedSinks = map[string]bool{
 	"deps.dev/util/resolve.SortVersions":        true,
 	"deps.dev/util/resolve.SortDependencies":    true,
